@@ -236,6 +236,8 @@ def echo2(a, b, escape=None):
         raise ValueError('poison item')
     elif a == 'SWALLOW':
         return swallow_everything(escape)
+    elif a == 'UNREADABLE':
+        return NeedsArgs(1, 2)      # a result the parent cannot rebuild
     return ('r', a, b)
 
 
